@@ -131,6 +131,8 @@ class ProgGen(object):
         if self.hostile and self.r.random() < 0.1:
             # the code spelled with leading zeros, as CNC-style post-processors write it: G01, G00, G092, M0204
             s = re.sub(r"^([GMgm])(\d+)", lambda m: m.group(1) + "0" * self.r.choice([1, 1, 2]) + m.group(2), s)
+        if self.hostile and self.r.random() < 0.06 and not s.upper().startswith("M117"):
+            s = re.sub(r"^([GgMm]\d+) (?=[A-Za-z])", r"\1", s)        # G1X10 ...: no blank after the code either
         if self.hostile and self.r.random() < 0.15:
             s = s.lower() if self.r.random() < 0.5 else s[0].lower() + s[1:]
         self.steps.append(["g", s])
@@ -195,6 +197,7 @@ class ProgGen(object):
             self.entry_e = e_before          # the file's E when the episode was entered
 
     def _move(self, x=None, y=None, z=None, de=0.0, g="G1", feed=None):
+        self._before_move = (self.x, self.y, self.z, self.e)
         words = []
         if x is not None:
             w, self.x = self.coord("X", x)
@@ -214,6 +217,19 @@ class ProgGen(object):
             self.r.shuffle(words)
         sep = " " if not self.hostile or self.r.random() < 0.85 else self.r.choice(["", "  "])
         self.emit(g + " " + sep.join(words))
+        if not self.abs and self.f.get("repeat", True) and (x is not None or y is not None) and self.r.random() < 0.06:
+            # the very same line again: under G91 it moves by the same offsets once more
+            x0, y0, z0, e0 = self._before_move
+            dx, dy, dz, de_ = self.x - x0, self.y - y0, self.z - z0, self.e - e0
+            nx, ny = self.x + dx, self.y + dy
+            lo, hi = self.f.get("bed", (0.0, BED))
+            clear = (not self.regs) or abs(depth_in(self.regs, nx, ny)) > max(self.margin, 0.05)
+            if lo <= nx <= hi and lo <= ny <= hi and clear and (not self.f.get("avoid") or not self.regs or depth_in(self.regs, nx, ny) < 0):
+                self.steps.append(["g", self.steps[-1][1]])
+                self.x, self.y, self.z = nx, ny, self.z + dz
+                if self.erel():
+                    self.e += de_
+                self.tags.add("repeated-line")
 
     # ------------------------------------------------------------ retraction cycles
     def retract(self):
@@ -427,6 +443,8 @@ class ProgGen(object):
             self.unretract()
         if not self.abs:
             self.tags.add("arc_rel")
+        if self.abs and self.unit == 1.0 and self.f.get("tiny_arcs", True) and r.random() < 0.05:
+            return self.tiny_arc()
         rad = r.choice([2.0, 3.5, 5.0, 9.0, 14.0])
         a0 = r.uniform(0, 2 * math.pi)
         sw = r.uniform(0.3, 5.8)
@@ -477,6 +495,28 @@ class ProgGen(object):
         if r.random() < 0.1 and self.f.get("zmoves", True):
             wz, self.z = self.coord("Z", round(self.z + 0.2, 2))
             parts.append(wz)
+        sep = " " if not self.hostile or r.random() < 0.85 else r.choice(["", "  ", "\t"])
+        self.emit("%s %s" % ("G2" if cw else "G3", sep.join(parts)))
+
+    def tiny_arc(self):
+        """An arc whose end point is 2e-8 .. 5e-7 mm from its start in the direction of rotation: a minute arc, not a full circle
+        (absolute millimetres only; ten decimals)."""
+        r = self.r
+        rad = r.choice([2.0, 5.0, 9.0, 14.0])
+        a0 = r.uniform(0, 2 * math.pi)
+        cw = r.random() < 0.5
+        d = r.choice([2e-8, 1e-7, 5e-7])
+        cx, cy = self.x - rad * math.cos(a0), self.y - rad * math.sin(a0)
+        a1 = a0 - d / rad if cw else a0 + d / rad
+        sx_, sy_ = fmt(cx + rad * math.cos(a1), 10), fmt(cy + rad * math.sin(a1), 10)
+        if (float(sx_), float(sy_)) == (self.x, self.y):
+            return
+        parts = ["X" + sx_, "Y" + sy_, "I" + fmt(cx - self.x, 3), "J" + fmt(cy - self.y, 3)]
+        self.x, self.y = float(sx_), float(sy_)
+        if r.random() < 0.5:
+            we, self.e = self.eword(self.e + EGRID)
+            parts.append(we)
+        self.tags.add("tiny-arc")
         self.emit("%s %s" % ("G2" if cw else "G3", " ".join(parts)))
 
     def atcmd(self):
